@@ -57,8 +57,22 @@ class UAnd:
         return z3.And([x.z3() for x in self.items]) if len(self.items) > 1 else self.items[0].z3()
 
 
+class UOr:
+    """disjunction of unary literals (the negation of a UAnd)"""
+    __slots__ = ('items',)
+
+    def __init__(self, items):
+        self.items = items
+
+    def z3(self):
+        return z3.Or([x.z3() for x in self.items])
+
+    def neg(self):
+        return UAnd([U(u.v, u.s.compl()) for u in self.items])
+
+
 def toz3(c):
-    if isinstance(c, (U, UAnd)):
+    if isinstance(c, (U, UAnd, UOr)):
         return c.z3()
     if isinstance(c, bool):
         return z3.BoolVal(c)
@@ -70,7 +84,7 @@ def is_sym(v):
 
 
 def is_cond(v):
-    return isinstance(v, (bool, z3.BoolRef, U, UAnd))
+    return isinstance(v, (bool, z3.BoolRef, U, UAnd, UOr))
 
 
 _CHARVARS = {}
@@ -130,6 +144,10 @@ def Not(a):
         return not a
     if isinstance(a, U):
         return U(a.v, a.s.compl())
+    if isinstance(a, UAnd):
+        return UOr([U(u.v, u.s.compl()) for u in a.items])
+    if isinstance(a, UOr):
+        return a.neg()
     return z3.Not(toz3(a))
 
 
